@@ -115,7 +115,7 @@ fn canon_spec(s: &Spec) -> String {
     class_of(&k)
 }
 
-const PATHS: [Path; 6] = [Path::PartsOwned, Path::PartsStatic, Path::PartsArc, Path::StaticParts, Path::TupleSlice, Path::CloneOfStatic];
+const PATHS: [Path; 10] = [Path::PartsOwned, Path::PartsStatic, Path::PartsArc, Path::StaticParts, Path::TupleSlice, Path::CloneOfStatic, Path::Extra(0), Path::Extra(1), Path::StaticLabels, Path::CloneOfOwned];
 
 #[derive(Debug, Clone)]
 enum Op {
